@@ -4,4 +4,4 @@ go 1.13
 
 require github.com/gocql/gocql v0.0.0
 
-replace github.com/gocql/gocql => /tmp/a1/repo
+replace github.com/gocql/gocql => /repo
